@@ -13,11 +13,12 @@
      VNode (TGeneric c) args                     GenericValue(c, args)
      VNode (TSeq c flags) (arg :: members)       SequenceValue(c, zip flags members); arg = its derived .args[0]
      VNode (TDictInc c fl) (ka :: va :: k1 :: v1 :: ...)   DictIncompleteValue; fl = (is_many, is_required) per pair
-     VNode (TTypedDict keys he ro) (va :: entry types ++ [extra]?)   TypedDictValue, keys sorted
+     VNode (TTypedDict keys he ro) (va :: entry types ++ [extra]?)   TypedDictValue, keys in declaration (dict insertion) order
      VNode (TSubclass ex) [t]                    SubclassValue(t, exactly=ex)
      VNode (TAnnot md) [v]                       AnnotatedValue(v, md), metadata as opaque codes
      VNode (TTypeVar tv hb) (bound? ++ constraints)   TypeVarValue
-     VNode (TCallable shape) (param annotations ++ [return])   CallableValue of a plain Signature
+     VNode (TCallable npos kw) (positional-only annotations ++ keyword-only annotations ++ [return])
+                                                 CallableValue of a plain Signature; kw = names in declaration order
      VUnion vs                                   MultiValuedValue with .vals = vs
    Derived dataclass fields (the `args` of SequenceValue / DictIncompleteValue /
    TypedDictValue, which the constructors compute with unite_values) are explicit
@@ -42,7 +43,7 @@ Inductive tag : Type :=
 | TSubclass (exactly : bool)
 | TAnnot (md : list N)
 | TTypeVar (tv : N) (has_bound : bool)
-| TCallable (shape : N).
+| TCallable (npos : nat) (kw : list N).
 
 Inductive val : Type :=
 | VLeaf (l : leaf)
@@ -86,14 +87,18 @@ Definition tag_eqb (s t : tag) : bool :=
   | TSubclass e, TSubclass e' => Bool.eqb e e'
   | TAnnot m, TAnnot m' => listN_eqb m m'
   | TTypeVar v hb, TTypeVar v' hb' => N.eqb v v' && Bool.eqb hb hb'
-  | TCallable s, TCallable s' => N.eqb s s'
+  | TCallable p k, TCallable p' k' => Nat.eqb p p' && listN_eqb k k'
   | _, _ => false
   end.
 
-(* TypedDictValue.__hash__ is hash(tuple(sorted(self.items))): the key names only *)
+(* TypedDictValue.__hash__ is hash(tuple(sorted(self.items))): the key names only, in
+   sorted order — i.e. the *set* of names (names of one TypedDict are distinct) *)
+Definition same_names (a b : list N) : bool :=
+  Nat.eqb (length a) (length b) && forallb (fun x => existsb (N.eqb x) b) a.
+
 Definition tag_heqb (s t : tag) : bool :=
   match s, t with
-  | TTypedDict k _ _, TTypedDict k' _ _ => listN_eqb (map fst k) (map fst k')
+  | TTypedDict k _ _, TTypedDict k' _ _ => same_names (map fst k) (map fst k')
   | _, _ => tag_eqb s t
   end.
 
@@ -174,13 +179,46 @@ Section Forall2b.
     end.
 End Forall2b.
 
+(* generated dataclass __eq__ of a node.  Two fields are dicts and compare without
+   regard to insertion order: TypedDictValue.items and Signature.parameters (only the
+   keyword-only parameters can be permuted in a valid signature). *)
+Section NodeEq.
+  Context (f : val -> val -> bool).
+
+  (* every (key, data, value) of the first keyed list has a counterpart in the second *)
+  Definition keyed_incl {K : Type} (keq : K -> K -> bool) (l1 l2 : list (K * val)) : bool :=
+    forallb (fun p => existsb (fun q => keq (fst p) (fst q) && f (snd p) (snd q)) l2) l1.
+
+  Definition tdkey_eqb (a b : N * (bool * bool)) : bool :=
+    N.eqb (fst a) (fst b) && Bool.eqb (fst (snd a)) (fst (snd b)) && Bool.eqb (snd (snd a)) (snd (snd b)).
+
+  Definition node_veq (s : tag) (k1 : list val) (t : tag) (k2 : list val) : bool :=
+    match s, t with
+    | TTypedDict ks1 he1 ro1, TTypedDict ks2 he2 ro2 =>
+        Bool.eqb he1 he2 && Bool.eqb ro1 ro2 && Nat.eqb (length ks1) (length ks2) &&
+        match k1, k2 with
+        | va1 :: ts1, va2 :: ts2 =>
+            f va1 va2 &&
+            keyed_incl tdkey_eqb (combine ks1 ts1) (combine ks2 ts2) &&
+            forall2b f (skipn (length ks1) ts1) (skipn (length ks2) ts2)
+        | _, _ => false
+        end
+    | TCallable p1 kw1, TCallable p2 kw2 =>
+        Nat.eqb p1 p2 && Nat.eqb (length kw1) (length kw2) && Nat.eqb (length k1) (length k2) &&
+        forall2b f (firstn p1 k1) (firstn p2 k2) &&
+        keyed_incl N.eqb (combine kw1 (skipn p1 k1)) (combine kw2 (skipn p2 k2)) &&
+        forall2b f (skipn (p1 + length kw1) k1) (skipn (p2 + length kw2) k2)
+    | _, _ => tag_eqb s t && forall2b f k1 k2
+    end.
+End NodeEq.
+
 Fixpoint veq_f (n : nat) (a b : val) {struct n} : bool :=
   match n with
   | O => false
   | S n' =>
     match a, b with
     | VLeaf x, VLeaf y => leaf_eqb x y
-    | VNode s k1, VNode t k2 => tag_eqb s t && forall2b (veq_f n') k1 k2
+    | VNode s k1, VNode t k2 => node_veq (veq_f n') s k1 t k2
     | VUnion l1, VUnion l2 =>
         forall2b (veq_f n') l1 l2 || set_eq (fun x y => heq x y && veq_f n' x y) l1 l2
     | _, _ => false
@@ -296,12 +334,49 @@ Fixpoint has_annotated_unreachable (v : val) : bool :=
   | VUnion k => existsb has_annotated_unreachable k
   end.
 
-(* an AnnotatedValue directly around an AnnotatedValue (only the constructor,
-   never annotate_value, builds these) *)
+(* an AnnotatedValue directly around an AnnotatedValue or around a union (incl. Never):
+   only the constructor builds these; annotate_value / unite_values flatten or distribute them *)
 Fixpoint has_nested_annot (v : val) : bool :=
   match v with
   | VLeaf _ => false
   | VNode (TAnnot _) [VNode (TAnnot _) _] => true
+  | VNode (TAnnot _) [VUnion _] => true      (* Annotated[union]: unite_values distributes the metadata *)
   | VNode _ k => existsb has_nested_annot k
   | VUnion k => existsb has_nested_annot k
   end.
+
+(* ---- root causes of a hash inconsistency (== but different hash) ----
+   A bad pair is a *root* when none of its pairs of direct children is itself bad:
+   the inconsistency originates at this node.  Roots are classified by shape; a root
+   of any other shape is unexplained. *)
+Definition kids_of (v : val) : list val :=
+  match v with VLeaf _ => [] | VNode _ k => k | VUnion k => k end.
+
+Definition bad_pair (n : nat) (x y : val) : bool := veq_f n x y && negb (heq x y).
+
+Definition root_bad (n : nat) (x y : val) : bool :=
+  bad_pair n x y &&
+  forallb (fun cx => forallb (fun cy => negb (bad_pair n cx cy)) (kids_of y)) (kids_of x).
+
+Inductive cause := CLiteral | CUnionOrder | CKwOnlyOrder | COther.
+
+Definition classify_root (x y : val) : cause :=
+  match x, y with
+  | VLeaf (LKnown _ | LKnownTV _), VLeaf (LKnown _ | LKnownTV _) => CLiteral
+  | VUnion _, VUnion _ => CUnionOrder
+  | VNode (TCallable _ kw) _, VNode (TCallable _ kw') _ => if listN_eqb kw kw' then COther else CKwOnlyOrder
+  | _, _ => COther
+  end.
+
+(* numbers of root bad pairs per cause, over a list of subterms *)
+Definition root_causes (n : nat) (S : list val) : nat * nat * nat * nat :=
+  fold_left (fun acc x =>
+    fold_left (fun acc y =>
+      if root_bad n x y then
+        match acc, classify_root x y with
+        | (a, b, c, d), CLiteral => (Datatypes.S a, b, c, d)
+        | (a, b, c, d), CUnionOrder => (a, Datatypes.S b, c, d)
+        | (a, b, c, d), CKwOnlyOrder => (a, b, Datatypes.S c, d)
+        | (a, b, c, d), COther => (a, b, c, Datatypes.S d)
+        end
+      else acc) S acc) S (0, 0, 0, 0).
